@@ -393,6 +393,176 @@ theorem binop_agree (hd : fx.divMin = true) (hs : fx.shiftCount = true) (op : La
   case div => exact divmod_agree fx ρ hd _ (by simp) a b
   case mod => exact divmod_agree fx ρ hd _ (by simp) a b
 
+/-! ## unary operators, truthiness, string conversion -/
+
+macro "xl_usimp" : tactic => `(tactic|
+  simp (config := {decide := true}) [VMOps.step, emb, Agree, lcls, vcls, Lang.unNeg, Lang.unCompl, Lang.unIncr,
+      VMOps.opMinus, VMOps.opCompl, VMOps.opIncDec, VMOps.longOf, VMOps.intOf, VMOps.R.out,
+      ← strToLong_agree, Lang.strToUInt])
+
+theorem neg_agree (a : Lang.Val) : Agree ρ (Lang.unNeg a) (VMOps.step fx .minus [emb ρ a]) := by
+  cases a <;> xl_usimp
+
+theorem compl_agree (a : Lang.Val) : Agree ρ (Lang.unCompl a) (VMOps.step fx .compl [emb ρ a]) := by
+  cases a <;> xl_usimp
+
+theorem incr_agree (a : Lang.Val) : Agree ρ (Lang.unIncr 1 a) (VMOps.step fx .inc [emb ρ a]) := by
+  cases a <;> xl_usimp
+
+theorem decr_agree (a : Lang.Val) : Agree ρ (Lang.unIncr (-1) a) (VMOps.step fx .dec [emb ρ a]) := by
+  cases a <;> xl_usimp
+  · have : (18446744073709551615#64) = -1#64 := by decide
+    rw [this, BitVec.sub_eq_add_neg]
+  · have : (4294967295#32) = -1#32 := by decide
+    rw [this, BitVec.sub_eq_add_neg]
+
+theorem truthy_agree (a : Lang.Val) : VMOps.boolOf (emb ρ a) = a.truthy := by
+  cases a <;> simp [emb, VMOps.boolOf, Lang.Val.truthy]
+  rename_i s
+  rw [Bool.eq_iff_iff]; simp [List.isEmpty_iff, strBytes_eq_nil]
+
+theorem stringValue_agree (a : Lang.Val) :
+    VMOps.strOf fx (emb ρ a) = .ok (Lang.strBytes a.stringValue) := by
+  cases a <;> simp [emb, VMOps.strOf, Lang.Val.stringValue, strBytes_nil, strBytes_intToString, strBytes_chrToString,
+    strBytes_typeArray, VMOps.Val.kind]
+
+
+/-! ## `size` and r-value indexing (arrays through `Represents`) -/
+
+theorem size_agree (heap : Lang.Heap) (hρ : Represents ρ heap) (a : Lang.Val) :
+    VMOps.step fx .size [emb ρ a] = .ok (emb ρ (Lang.unSize heap a)) := by
+  cases a <;> simp (config := {decide := true}) [VMOps.step, VMOps.opSize, emb, Lang.unSize, length_strBytes]
+  rename_i h; rw [hρ h]; simp
+
+/-- the `VMOps` key of a `Lang` key -/
+def vkey : Lang.Key → VMOps.Key
+  | .int v => .int v
+  | .str s => .str (Lang.strBytes s)
+
+theorem keyOfStored_embKey (k : Lang.Key) : VMOps.keyOfStored (embKey k) = some (vkey k) := by
+  cases k <;> rfl
+
+theorem vkey_inj {k k' : Lang.Key} (w : WFKey k) (w' : WFKey k') : vkey k = vkey k' ↔ k = k' := by
+  cases k <;> cases k' <;> simp [vkey]
+  exact strBytes_inj w w'
+
+theorem lookup_agree (l : Lang.Holder) (k : Lang.Key) (wk : WFKey k) (wl : ∀ kv ∈ l, WFKey kv.1) :
+    (VMOps.lookup (l.map fun kv => (embKey kv.1, emb ρ kv.2)) (vkey k)).getD .nil
+      = emb ρ ((Lang.alookup k l).getD .nil) := by
+  induction l with
+  | nil => simp [VMOps.lookup, Lang.alookup, emb]
+  | cons e t ih =>
+    obtain ⟨k', v⟩ := e
+    have w' : WFKey k' := wl (k', v) (by simp)
+    have iht := ih (fun kv h => wl kv (by simp [h]))
+    unfold VMOps.lookup at iht ⊢
+    rw [List.map_cons, List.find?_cons]
+    by_cases h : k' = k
+    · subst h; simp [keyOfStored_embKey, Lang.alookup]
+    · have hne : ¬ vkey k' = vkey k := fun e => h ((vkey_inj w' wk).mp e)
+      have : (VMOps.keyOfStored (embKey k', emb ρ v).1 == some (vkey k)) = false := by
+        simp [keyOfStored_embKey, hne]
+      rw [this]
+      simp only [Lang.alookup, h, if_false]
+      exact iht
+
+theorem keyOf_agree (i : Lang.Val) :
+    (∀ k, i.toKey = .ok k → VMOps.keyOf fx (emb ρ i) = .ok (vkey k)) ∧
+    (i.toKey = .error .badKey → VMOps.keyOf fx (emb ρ i) = .err .badHashCodeValue) := by
+  cases i <;> simp [Lang.Val.toKey, VMOps.keyOf, emb, vkey, VMOps.strOf, VMOps.R.bind]
+
+theorem index_agree (heap : Lang.Heap) (hρ : Represents ρ heap) (hw : HeapWF heap) (a i : Lang.Val) (wi : WF i) :
+    Agree ρ (Lang.indexVal heap a i) (VMOps.step fx .evalAt [emb ρ a, emb ρ i]) := by
+  cases a
+  case nil => simp [VMOps.step, VMOps.evalAt, emb, Lang.indexVal, Agree]
+  case int => simp [VMOps.step, VMOps.evalAt, emb, Lang.indexVal, Agree, lcls, vcls]
+  case chr => simp [VMOps.step, VMOps.evalAt, emb, Lang.indexVal, Agree, lcls, vcls]
+  case str s =>
+    cases i
+    case int v =>
+      by_cases hlt : v.toNat < s.length <;>
+        simp [VMOps.step, VMOps.evalAt, VMOps.evalAt.strAt, emb, Lang.indexVal, Agree, lcls, vcls, VMOps.longOf,
+          VMOps.R.out, getElem?_strBytes, hlt]
+    case str t =>
+      by_cases hlt : (Lang.strToLong t).toNat < s.length <;>
+        simp [VMOps.step, VMOps.evalAt, VMOps.evalAt.strAt, emb, Lang.indexVal, Agree, lcls, vcls, VMOps.longOf,
+          VMOps.R.out, getElem?_strBytes, ← strToLong_agree, hlt]
+    all_goals
+      simp [VMOps.step, VMOps.evalAt, VMOps.evalAt.strAt, emb, Lang.indexVal, Agree, lcls, vcls, VMOps.longOf,
+        VMOps.R.out]
+  case arr h =>
+    have hk := keyOf_agree fx ρ i
+    have e : emb ρ (Lang.Val.arr h) = VMOps.Val.arr (ρ h) := rfl
+    rw [e]
+    simp only [VMOps.step, VMOps.evalAt, Lang.indexVal]
+    cases hi : i.toKey with
+    | ok k =>
+      have wk : WFKey k := by
+        cases i <;> simp [Lang.Val.toKey] at hi <;> subst hi <;> simp [WFKey, WF] at wi ⊢ <;> exact wi
+      rw [hk.1 k hi, hρ h]
+      simp only [VMOps.R.out, Agree, bind, Except.bind]
+      rw [lookup_agree ρ _ k wk (hw h)]
+    | error e =>
+      have he : e = .badKey := by cases i <;> simp [Lang.Val.toKey] at hi <;> exact hi.symm
+      subst he
+      rw [hk.2 hi]
+      simp [VMOps.R.out, Agree, bind, Except.bind, lcls, vcls]
+
 end
+
+/-! ## results stay inside the representation invariant -/
+
+theorem binop_int_of_ne_add (op : Lang.BinOp) (hop : op ≠ .add) (a b r : Lang.Val)
+    (h : Lang.binop op a b = .ok r) : ∃ v, r = .int v := by
+  cases op <;> first
+    | exact absurd rfl hop
+    | (cases a <;> cases b <;> simp [Lang.binop, Lang.typeErr, Lang.boolVal] at h <;>
+        first
+          | exact ⟨_, h.symm⟩
+          | (split at h <;> first
+              | exact ⟨_, (Except.ok.inj h).symm⟩
+              | (split at h <;> first | exact ⟨_, (Except.ok.inj h).symm⟩ | simp at h)
+              | simp at h))
+
+theorem binop_wf (op : Lang.BinOp) (a b r : Lang.Val) (wa : WF a) (wb : WF b)
+    (h : Lang.binop op a b = .ok r) : WF r := by
+  by_cases hop : op = .add
+  · subst hop
+    cases a <;> cases b <;> simp [Lang.binop, Lang.typeErr] at h <;> subst h <;> simp only [WF] at *
+    · exact byteStr_append (byteStr_intToString _) wb
+    · exact byteStr_append wa (byteStr_intToString _)
+    · exact byteStr_append wa wb
+    · exact byteStr_append wa (byteStr_chrToString _)
+    · exact byteStr_append (byteStr_chrToString _) wb
+  · obtain ⟨v, rfl⟩ := binop_int_of_ne_add op hop a b r h
+    trivial
+
+/-! ## what `Agree` says, outcome by outcome -/
+
+theorem agree_ok_iff {ρ : Content} {x : Except Lang.Err Lang.Val} {o : VMOps.Out} (h : Agree ρ x o) :
+    (∃ r, x = .ok r) ↔ (∃ v, o = .ok v) := by
+  cases x with
+  | ok r => simp only [Agree] at h; subst h; simp
+  | error e => obtain ⟨e', lhs, rfl, _⟩ := h; simp
+
+theorem agree_err_iff {ρ : Content} {x : Except Lang.Err Lang.Val} {o : VMOps.Out} (h : Agree ρ x o) (c : Cls) :
+    (∃ e, x = .error e ∧ lcls e = c) ↔ (∃ e' lhs, o = .err e' lhs ∧ vcls e' = c) := by
+  cases x with
+  | ok r => simp only [Agree] at h; subst h; simp
+  | error e =>
+    obtain ⟨e', lhs, rfl, hc⟩ := h
+    constructor
+    · rintro ⟨e1, h1, h2⟩
+      cases h1
+      exact ⟨e', lhs, rfl, hc.trans h2⟩
+    · rintro ⟨e1, l1, h1, h2⟩
+      cases h1
+      exact ⟨e, rfl, hc.symm.trans h2⟩
+
+theorem agree_not_ub {ρ : Content} {x : Except Lang.Err Lang.Val} {o : VMOps.Out} (h : Agree ρ x o) :
+    o.isUb = false := by
+  cases x with
+  | ok r => simp only [Agree] at h; subst h; rfl
+  | error e => obtain ⟨e', lhs, rfl, _⟩ := h; rfl
 
 end Morfuse.XLinks
